@@ -40,6 +40,11 @@ MALFORMED = [
     ('binary', b'\x00\x01\xfe\xff\n\xff'),
     ('nonutf8', b'[Trash Info]\nPath=/orig/n\xff\nDeletionDate=2000-01-01T00:00:00\n'),
     ('truncated', b'[Trash Info]\nPa'),
+    ('cutdate1', b'[Trash Info]\nPath=/orig/c1\nDeletionDate=2020'),
+    ('cutdate2', b'[Trash Info]\nPath=/orig/c2\nDeletionDate=2020-0'),
+    ('cutdate3', b'[Trash Info]\nPath=/orig/c3\nDeletionDate=2020-01-01T10:'),
+    ('latin1path', b'[Trash Info]\nPath=/orig/caf\xe9\nDeletionDate=2000-01-01T00:00:00\n'),
+    ('twodates', b'[Trash Info]\nPath=/orig/td\nDeletionDate=zz\nDeletionDate=2000-01-01T00:00:00\n'),
 ]
 
 
